@@ -716,6 +716,24 @@ func TryReplay(p *Program, o *Obligation, opts SolveOpts) map[string]any {
 				return res
 			}
 		}
+		if br, ok := m["tls_breach"].(bool); ok && br {
+			o.Reproduced = true
+			res["result"] = "reproduced"
+			res["observed"] = fmt.Sprintf("a TLS client whose leaf certificate does not carry the configured name was served (%v): calls %v, reply %q", m["scenario"], m["calls"], m["out"])
+			return res
+		}
+		if n, ok := m["registry_left"].(float64); ok && n > 0 {
+			o.Reproduced = true
+			res["result"] = "reproduced"
+			res["observed"] = fmt.Sprintf("%v connection(s) still registered after receive returned (%v)", n, m["scenario"])
+			return res
+		}
+		if rg, ok := m["tls_refused_good"].(bool); ok && rg {
+			o.Reproduced = true
+			res["result"] = "reproduced"
+			res["observed"] = fmt.Sprintf("a TLS client with the configured common name on its leaf certificate was not served (%v)", m["scenario"])
+			return res
+		}
 		if ne, ok := m["nil_element"].(bool); ok && ne {
 			o.Reproduced = true
 			res["result"] = "reproduced"
